@@ -18,6 +18,10 @@ type realFS struct {
 	// This stores data that will end up being returned by "WatchData()"
 	watchData map[string]privateWatchData
 
+	// This stores the entry kinds and symlink targets that were observed by
+	// "kind()", which "WatchData()" also needs to check for changes
+	watchKinds map[string]watchedKind
+
 	// When building with WebAssembly, the Go compiler doesn't correctly handle
 	// platform-specific path behavior. Hack around these bugs by compiling
 	// support for both Unix and Windows paths into all executables and switch
@@ -48,6 +52,11 @@ const (
 	stateFileMissing                      // Compare file presence
 	stateFileUnusableModKey               // Compare "fileContents"
 )
+
+type watchedKind struct {
+	symlink string
+	kind    EntryKind
+}
 
 type privateWatchData struct {
 	accessedEntries *accessedEntries
@@ -106,14 +115,17 @@ func RealFS(options RealFSOptions) (FS, error) {
 
 	// Only allocate memory for watch data if necessary
 	var watchData map[string]privateWatchData
+	var watchKinds map[string]watchedKind
 	if options.WantWatchData {
 		watchData = make(map[string]privateWatchData)
+		watchKinds = make(map[string]watchedKind)
 	}
 
 	var result FS = &realFS{
 		entries:           make(map[string]entriesOrErr),
 		fp:                fp,
 		watchData:         watchData,
+		watchKinds:        watchKinds,
 		doNotCacheEntries: options.DoNotCache,
 	}
 
@@ -408,7 +420,18 @@ func (fs *realFS) canonicalizeError(err error) error {
 
 func (fs *realFS) kind(dir string, base string) (symlink string, kind EntryKind) {
 	entryPath := fs.fp.join([]string{dir, base})
+	symlink, kind = fs.kindOfPath(entryPath)
 
+	// Store data for watch mode
+	if fs.watchData != nil {
+		fs.watchMutex.Lock()
+		fs.watchKinds[entryPath] = watchedKind{symlink: symlink, kind: kind}
+		fs.watchMutex.Unlock()
+	}
+	return
+}
+
+func (fs *realFS) kindOfPath(entryPath string) (symlink string, kind EntryKind) {
 	// Use "lstat" since we want information about symbolic links
 	BeforeFileOpen()
 	defer AfterFileClose()
@@ -534,6 +557,26 @@ func (fs *realFS) WatchData() WatchData {
 				}
 				return ""
 			}
+		}
+	}
+
+	// An entry is also changed if it's now a different kind of entry or if it's
+	// a symlink that now points somewhere else. The files behind a symlink are
+	// read using their real path, so nothing above notices a changed symlink.
+	for path, observed := range fs.watchKinds {
+		path := path
+		observed := observed
+		previous := paths[path]
+		paths[path] = func() string {
+			if previous != nil {
+				if changed := previous(); changed != "" {
+					return changed
+				}
+			}
+			if symlink, kind := fs.kindOfPath(path); symlink != observed.symlink || kind != observed.kind {
+				return path
+			}
+			return ""
 		}
 	}
 
